@@ -81,7 +81,7 @@ def norm(e):
     if k in ('arg', 'local'):
         return (k, e[1])
     if k == 'ref':
-        return ('ref', norm(e[1]))
+        return norm(e[1])  # a captured-by-reference value read through the reference
     return e
 
 
